@@ -4576,7 +4576,10 @@ class ResponseFuture(object):
         # or to the explicit host target if set
         if self._host:
             # returning a single value effectively disables retries
-            self.query_plan = [self._host]
+            # (an iterator, like the load-balancer branch: a list would be re-walked from
+            # the start by every send_request(), so RETRY_NEXT_HOST or a speculative
+            # execution would go to the same host again instead of exhausting the plan)
+            self.query_plan = iter([self._host])
         else:
             # convert the list/generator/etc to an iterator so that subsequent
             # calls to send_request (which retries may do) will resume where
